@@ -124,6 +124,11 @@ func (i *FSMInstance) Do(event fsm.Event, args ...interface{}) (result *fsm.Resp
 
 		dump, dumpErr = i.dump.Marshal()
 		if dumpErr != nil {
+			// a state that cannot be written down must not be taken for
+			// accepted: the caller would persist the empty dump
+			if err == nil {
+				err = fmt.Errorf("failed to dump the state after event %s: %w", event, dumpErr)
+			}
 			return result, []byte{}, err
 		}
 	}
